@@ -492,8 +492,31 @@ func (s *sdRun) c20BusyBackup(bm *server.BackupManager) {
 		defer func() { _ = recover() }()
 		bm.Run()
 	}
+	bfile := filepath.Join(s.dir, "backup", "datahub-backup.kv")
+	sizeOf := func() int64 {
+		if fi, err := os.Stat(bfile); err == nil {
+			return fi.Size()
+		}
+		return -1
+	}
+	before := sizeOf()
+	first := make(chan struct{})
 	rw.Add(1)
-	go runGuarded()
+	go func() { defer close(first); runGuarded() }()
+	// the scheduler's firings are minutes apart: the further ones must find the first run inside its work (the
+	// backup file has started to grow), not merely started as a goroutine - on a loaded machine that can take long
+	for entered := false; !entered; {
+		select {
+		case <-first:
+			entered = true
+		default:
+			if sizeOf() > before && sizeOf() > 0 {
+				entered = true
+			} else {
+				time.Sleep(200 * time.Microsecond)
+			}
+		}
+	}
 	for i := 0; i < 3; i++ { // further scheduler invocations while the run is in progress
 		time.Sleep(3 * time.Millisecond)
 		rw.Add(1)
